@@ -126,5 +126,41 @@ constexpr auto search_good(It1 first, It1 last, It2 sFirst, It2 sLast) -> It1
     return last;
 }
 
+// STALEREP: the group representative is never refreshed
+template <typename It, typename Out, typename Pred>
+constexpr auto unique_copy_bad(It first, It last, Out dest, Pred pred) -> Out
+{
+    if (first != last) {
+        auto value = *first;
+        *dest      = value;
+        ++dest;
+        while (++first != last) {
+            if (not pred(value, *first)) {
+                *dest = *first;
+                ++dest;
+            }
+        }
+    }
+    return dest;
+}
+
+template <typename It, typename Out, typename Pred>
+constexpr auto unique_copy_good(It first, It last, Out dest, Pred pred) -> Out
+{
+    if (first != last) {
+        auto value = *first;
+        *dest      = value;
+        ++dest;
+        while (++first != last) {
+            if (not pred(value, *first)) {
+                value = *first;
+                *dest = value;
+                ++dest;
+            }
+        }
+    }
+    return dest;
+}
+
 } // namespace fixture
 #endif
